@@ -21,7 +21,7 @@ for f in sorted(glob.glob("checks/C*.json")):
 print(" ".join(sorted(ms)))
 PY
 )
-(cd lean && lake build $MODS)
+(cd lean && lake build $MODS) || echo "setup: some Lean modules failed to build; the checks that need them will report it"
 cp "${VERIF_REPO:-/repo}/go.sum" harness/go.sum
 HS=$(python3 - <<'PY'
 import json,glob
